@@ -229,6 +229,15 @@ class CallMixin:
                 self.cur_fs = saved
         self.callees[fs.qual] = 'contract (trusted)' if c.trusted else 'contract'
         env = self.bind(fs.node.args, args, kwargs, f.__defaults__, None)
+        if self.cur_pure():
+            # a call inside a quantified / pure context: only contracts that define the result by an expression qualify
+            if c.pure_expr is None or c.requires or c.raises or c.modifies:
+                raise Unsupported(f'call of {fs.qual} in a pure context needs a contract with pure_expr and no requires/raises/modifies')
+            fr0 = Frame(None, dict(env), mod, None, c)
+            fr0.extra = self.contract_names_for(c, mod)
+            if c.trusted:
+                self.assumptions.add(f'assumed contract of {c.file}:{c.qual}' + (f' — {c.note}' if c.note else ''))
+            return self.ev_text_value(c.pure_expr, fr0)
         return self.apply_contract(c, fs, env, mod, node)
 
     def kind_matches(self, S, v):
@@ -499,7 +508,7 @@ class CallMixin:
             a2 = [zs.lift(self.unwrap_term(a), s) for a, s in zip(args, sorts)]
             return self.wrap_sort(self.recfuns[k](*a2), spec.ret)
         if spec.uninterpreted or spec._rec:
-            sorts = [zs.zsort(s) for s in spec.sorts]
+            sorts = self.expand_dict_sorts(spec.sorts)
             ret = zs.zsort(spec.ret)
             if spec.name not in self.recfuns:
                 if spec.uninterpreted:
@@ -517,7 +526,9 @@ class CallMixin:
                         self._pure -= 1
                     body = zs.lift(self.unwrap_term(body), ret)
                     z3.RecAddDefinition(self.recfuns[spec.name], params, body)
-            a2 = [zs.lift(self.unwrap_term(a), s) for a, s in zip(args, sorts)]
+            a2 = []
+            for a, s_ in zip(self.expand_dict_args(args), sorts):
+                a2.append(zs.lift(self.unwrap_term(a), s_))
             return self.wrap_sort(self.recfuns[spec.name](*a2), spec.ret)
         # macro: expand in place
         for S_ in list(spec.sorts) + [spec.ret]:
@@ -535,6 +546,25 @@ class CallMixin:
             return self.pure_block(fn.body, fr)
         finally:
             self._pure -= 1
+
+    def expand_dict_sorts(self, sorts):
+        out = []
+        for s_ in sorts:
+            if isinstance(s_, api.Dict):
+                ks, vs = self.zs.zsort(s_.key), self.zs.zsort(s_.val)
+                out += [z3.ArraySort(ks, z3.BoolSort()), z3.ArraySort(ks, vs)]
+            else:
+                out.append(self.zs.zsort(s_))
+        return out
+
+    def expand_dict_args(self, args):
+        out = []
+        for a in args:
+            if isinstance(a, VBox) and a.kind == 'dict':
+                out += [a.term, a.vsort]
+            else:
+                out.append(a)
+        return out
 
     def unwrap_term(self, v):
         if isinstance(v, (VAbs, VObj)):
